@@ -54,6 +54,7 @@ def coq_files():
 
 def make_target(target, jobs=16, timeout=3000):
     with Lock("coq"):
+        gen_coqproject()
         if not os.path.exists(os.path.join(COQ, "Makefile")) or \
            os.path.getmtime(os.path.join(COQ, "Makefile")) < os.path.getmtime(os.path.join(COQ, "_CoqProject")):
             sh(["coq_makefile", "-f", "_CoqProject", "-o", "Makefile"], cwd=COQ)
@@ -153,7 +154,20 @@ def load_known():
     return json.load(open(p)).get("findings", [])
 
 # ---------------------------------------------------------------------------------------------
-PROPS = json.load(open(os.path.join(ROOT, "lib", "props.json")))
+def load_props():
+    d = {}
+    for f in sorted(glob.glob(os.path.join(ROOT, "lib", "props.d", "*.json"))):
+        d[os.path.basename(f)[:-5]] = json.load(open(f))
+    return d
+PROPS = load_props()
+
+def gen_coqproject():
+    """_CoqProject lists every coq/*.v (coqdep orders them); rewritten only when the set changes"""
+    files = sorted(os.path.basename(f) for f in glob.glob(os.path.join(COQ, "*.v")))
+    txt = "-Q . V\n-arg -w -arg -notation-overridden,-deprecated-hint-without-locality,-deprecated-instance-without-locality\n" + "\n".join(files) + "\n"
+    p = os.path.join(COQ, "_CoqProject")
+    if not os.path.exists(p) or open(p).read() != txt:
+        open(p, "w").write(txt)
 
 def main(argv):
     if not argv:
